@@ -46,6 +46,32 @@ type HTTPCase struct {
 	Passes    int     `json:"passes"`
 	Refused   bool    `json:"target_refuses"`
 	Format    string  `json:"format"`
+	// How the file is laid out and how far it is shot: http/json files are written one object per line, as pretty-printed
+	// objects, or as one JSON array ("" = lines); the provider streams the file or preloads it; Limit (0 = none) and
+	// Passes (0 = unlimited, only together with a limit) bound the run, so that shots = min of the non-zero bounds among
+	// {limit, passes x entries} and the k-th ammo is entry k mod n.
+	JSONLayout string `json:"json_layout,omitempty"`
+	Preload    bool   `json:"preload,omitempty"`
+	Limit      int    `json:"limit,omitempty"`
+}
+
+// shots: how many ammo the provider delivers (the entries in file order, again from the first one on every pass).
+func (c HTTPCase) shots() int {
+	x := c.Limit
+	if c.Passes > 0 && (x == 0 || c.Passes*len(c.Entries) < x) {
+		x = c.Passes * len(c.Entries)
+	}
+	return x
+}
+
+func (c HTTPCase) layoutName() string {
+	if c.Format != "jsonline" {
+		return c.Format
+	}
+	if c.JSONLayout == "" {
+		return "jsonline_lines"
+	}
+	return "jsonline_" + c.JSONLayout
 }
 
 func genStatus(t *rapid.T) int {
@@ -96,9 +122,28 @@ func genHTTP(t *rapid.T) HTTPCase {
 		}
 	}
 	c.Instances = rapid.IntRange(1, 8).Draw(t, "instances")
-	c.Passes = rapid.IntRange(1, 2).Draw(t, "passes")
 	c.Refused = rapid.IntRange(0, 9).Draw(t, "refused") == 0
-	c.Format = rapid.SampledFrom([]string{"uri", "jsonline", "raw"}).Draw(t, "format")
+	// each of the three http/json layouts is as likely as each other format
+	c.Format = rapid.SampledFrom([]string{"uri", "jsonline", "raw", "uripost", "jsonline", "jsonline"}).Draw(t, "format")
+	if c.Format == "jsonline" {
+		c.JSONLayout = rapid.SampledFrom([]string{"lines", "pretty", "array"}).Draw(t, "jsonLayout")
+	}
+	c.Preload = rapid.Bool().Draw(t, "preload")
+	// bounds: passes alone, a limit with unlimited passes (the default of `passes`), or both; at most maxShots requests
+	const maxShots = 24
+	lim := 3 * n
+	if lim > maxShots {
+		lim = maxShots
+	}
+	switch rapid.SampledFrom([]string{"passes", "passes", "limit", "limit", "both"}).Draw(t, "bounds") {
+	case "passes":
+		c.Passes = rapid.IntRange(1, 3).Draw(t, "passes")
+	case "limit":
+		c.Limit = rapid.IntRange(1, lim).Draw(t, "limit")
+	case "both":
+		c.Passes = rapid.IntRange(1, 3).Draw(t, "passes")
+		c.Limit = rapid.IntRange(1, lim).Draw(t, "limit")
+	}
 	return c
 }
 
@@ -184,6 +229,10 @@ func (c HTTPCase) wantTag(i int) string {
 	return tag
 }
 
+func (c HTTPCase) what() string {
+	return fmt.Sprintf("%s ammo (%d entries, preload=%v, passes=%d, limit=%d, %d instances)", strings.ReplaceAll(c.layoutName(), "_", " "), len(c.Entries), c.Preload, c.Passes, c.Limit, c.Instances)
+}
+
 type phoutLine struct {
 	tag   string
 	id    uint64
@@ -265,16 +314,33 @@ func checkHTTP(c HTTPCase, o *vf.Obs) error {
 		if c.Format == "raw" {
 			en.Host = "h.example.com" // superseded by the host of an absolute request URI
 		}
+		if c.Format == "uripost" {
+			en.Method = "POST"
+			en.Body = []byte(fmt.Sprintf("body%d", i))
+		}
 		f.Items = append(f.Items, ag.Item{Entry: &en})
 	}
 	if c.Format == "jsonline" {
-		f.Layout.JSON = "lines"
+		f.Layout.JSON = c.JSONLayout
+		if f.Layout.JSON == "" {
+			f.Layout.JSON = "lines"
+		}
 	}
 	name := pand.WriteFile("c10", ".ammo", f.Render())
 	defer pand.Remove(name)
 	out := pand.TempName("c10", ".phout")
 	defer pand.Remove(out)
-	total := len(c.Entries) * c.Passes
+	total := c.shots()
+	ammoConf := map[string]any{"type": ag.ProviderType(c.Format), "file": name}
+	if c.Passes > 0 {
+		ammoConf["passes"] = c.Passes
+	}
+	if c.Limit > 0 {
+		ammoConf["limit"] = c.Limit
+	}
+	if c.Preload {
+		ammoConf["preload"] = true
+	}
 	addr := tg.Addr()
 	if c.Refused {
 		addr = closedPort()
@@ -284,7 +350,7 @@ func checkHTTP(c HTTPCase, o *vf.Obs) error {
 		"auto-tag": map[string]any{"enabled": c.AutoTag, "uri-elements": c.Elements, "no-tag-only": c.NoTagOnly}}
 	pool := map[string]any{
 		"id": "p", "gun": gun,
-		"ammo":    map[string]any{"type": ag.ProviderType(c.Format), "file": name, "passes": c.Passes},
+		"ammo":    ammoConf,
 		"result":  map[string]any{"type": "phout", "destination": out, "id": true},
 		"rps":     map[string]any{"type": "once", "times": total + 5},
 		"startup": map[string]any{"type": "once", "times": c.Instances},
@@ -312,7 +378,7 @@ func checkHTTP(c HTTPCase, o *vf.Obs) error {
 		return err
 	}
 	if len(lines) != total {
-		return fmt.Errorf("%d samples for %d fired requests (each request must produce exactly one sample)\n%s", len(lines), total, data)
+		return fmt.Errorf("%s: %d samples for %d fired requests (each request must produce exactly one sample)\n%s", c.what(), len(lines), total, data)
 	}
 	// expected multiset of (tag, proto, net==0)
 	type key struct {
@@ -321,8 +387,10 @@ func checkHTTP(c HTTPCase, o *vf.Obs) error {
 		netOK bool
 	}
 	want := map[key]int{}
-	for p := 0; p < c.Passes; p++ {
-		for i, e := range c.Entries {
+	{
+		for shot := 0; shot < total; shot++ {
+			i := shot % len(c.Entries)
+			e := c.Entries[i]
 			k := key{tag: c.wantTag(i)}
 			switch {
 			case c.Refused:
@@ -363,7 +431,7 @@ func checkHTTP(c HTTPCase, o *vf.Obs) error {
 	}
 	if len(diffs) > 0 {
 		sort.Strings(diffs)
-		return fmt.Errorf("samples differ from the model (auto-tag enabled=%v elements=%d no-tag-only=%v):\n  %s\n--- phout ---\n%s", c.AutoTag, c.Elements, c.NoTagOnly, strings.Join(diffs, "\n  "), data)
+		return fmt.Errorf("%s: samples differ from the model (auto-tag enabled=%v elements=%d no-tag-only=%v):\n  %s\n--- phout ---\n%s", c.what(), c.AutoTag, c.Elements, c.NoTagOnly, strings.Join(diffs, "\n  "), data)
 	}
 	nonOK, fails := false, false
 	for _, e := range c.Entries {
@@ -386,6 +454,27 @@ func checkHTTP(c HTTPCase, o *vf.Obs) error {
 	o.ClassIf(c.AutoTag && !c.NoTagOnly, "auto_tag_appended")
 	o.ClassIf(c.Instances >= 2, "instances_ge_2")
 	o.Class("format_" + c.Format)
+	// layout x preload x how far the file is shot: "reshot" = more shots than entries, i.e. from some point on every ammo
+	// is an entry that was already shot (and released by its instance) once
+	mode := "_stream"
+	if c.Preload {
+		mode = "_preload"
+	}
+	o.Class("layout_" + c.layoutName() + mode)
+	o.ClassIf(c.Preload, "preload")
+	if total > len(c.Entries) {
+		o.Class("reshot", "reshot_"+c.layoutName()+mode)
+		o.ClassIf(c.Passes == 0, "reshot_by_limit_with_unlimited_passes")
+		o.ClassIf(c.Passes == 0, "reshot_by_limit_with_unlimited_passes_"+c.layoutName()+mode)
+		o.ClassIf(c.Passes >= 2, "reshot_by_passes")
+		tagged := false
+		for _, e := range c.Entries {
+			tagged = tagged || e.Tag != ""
+		}
+		o.ClassIf(tagged, "reshot_tagged_"+c.layoutName()+mode)
+		o.ClassIf(total >= 2*len(c.Entries)+1, "third_pass_entered")
+	}
+	o.ClassIf(total < len(c.Entries), "limit_below_entries")
 	if nonOK || fails || c.Refused || c.AutoTag || c.Instances >= 2 {
 		o.NonTrivial()
 	}
